@@ -2,14 +2,18 @@
 {'harness': 'c11',
  'props': 'Props/C11.v',
  'models': ['Base/Tree.v', 'Model/Nav.v'],
- 'trusted': ['PROVED over the model (Props/C11.v, 26 theorems, no axioms): step simulation and whole-program '
+ 'trusted': ['PROVED over the model (Props/C11.v, 31 theorems, no axioms): step simulation and whole-program '
              'agreement of the two navigators (any program, any document, any start node); the guard ref_ok '
              'is decidable (ref_okb_spec) and is exactly the two defects of the reference '
              '(obs_differ_only_at_Q1 / Q1_characterised, moves_differ_only_at_Q2 / Q2_characterised); names '
              'seen by the engine (name_of_element, name_of_attribute, name_test_agree, '
              'bare_name_test_element); attribute positions (attr_walk_document_order, attr_position_refuses, '
-             'attr_parent_is_owner); the idr/query.go wrappers over ANY iterator (match_all_is_the_iteration '
-             'both directions, match_single_classification, match_single_on_panic, '
+             'attr_parent_is_owner); the idr/query.go wrappers as repaired by fix 3036423 (N11) over ANY '
+             'iterator, with yieldsNodeSet as a parameter (match_all_is_the_iteration both directions for '
+             'node-set queries, match_all_no_adjacent_self for any query, match_all_non_node_set_true: '
+             'terminates with exactly [context node] on the never ending iteration of a true non node-set '
+             'query, non_node_set_true_single_any, match_all_old_never_returns / match_all_old_refuted for '
+             'the loop before the repair, match_single_classification, match_single_on_panic, '
              'match_single_consistent_with_match_all, match_any_spec); no panic / no invalid position',
              'EXTRACTED from idr/navigator.go on every run (harness/cmd/extract/gen_nav.go -> '
              'coq/Gen/NavShape.v, tied by navigator_shape_extracted): the NodeType switch as a table (with '
@@ -44,7 +48,7 @@
                  'namespace URI; namespace-uri() goes through an optional side interface outside '
                  'NodeNavigator); each URI bound to one prefix in generated documents (guard of known '
                  'finding F11, which xmlquery shares)',
-                 'wrappers: the iterator is abstract (state + step yielding a node / end / panic); MatchAll '
-                 'needs fuel > number of nodes iterated (an iterator that never ends gives OutOfFuel: this '
-                 'happens in Go for a boolean-valued xpath that is true, e.g. MatchAll(n, "@k=\'1\'") never '
-                 'returns - reported to C03, outside the generated node-set expressions)']}
+                 'wrappers: the iterator is abstract (state + step yielding a node / end / panic) and '
+                 "yieldsNodeSet(exp) is a boolean parameter of the expression; that the engine's iterator "
+                 'over a true non node-set query yields the context node for ever (loops_on) is observed on '
+                 'every run (wrap:iterator-yields-context-node-for-ever), not proved of the engine']}
